@@ -1,4 +1,7 @@
-/-! Prototype: token-level print / parse round trip for the printed expression language of xdeps. -/
+/-! Prototype: token-level print / parse round trip for the printed expression language of xdeps.
+    The language: refs (root label, item / attribute access), integer literals, float literals (the text of
+    `repr(float)` carried opaquely by one token), binary and unary operators, and calls with positional
+    arguments followed by keyword arguments `name=value`. -/
 namespace Parse
 
 inductive Tok where
@@ -7,6 +10,10 @@ inductive Tok where
   | op (s : String)
   | num (n : Nat)
   | str (s : String)
+  /-- a non-negative float literal: ONE NUMBER token of Python's tokenizer; `text` is the (uninterpreted) text
+      of `repr(abs(x))`.  That distinct floats have distinct texts and that the text evaluates back to the float
+      is Python's guarantee, a recorded assumption outside the model. -/
+  | fnum (text : String)
 deriving DecidableEq, Repr
 
 inductive Key where
@@ -22,9 +29,17 @@ inductive Expr where
   | bin (op : String) (l r : Expr)
   | un (op : String) (a : Expr)
   | call (f : Expr) (args : List Expr)
+  /-- float literal: sign and the text of the magnitude (never interpreted) -/
+  | flit (neg : Bool) (text : String)
+  /-- call with keyword arguments `f(a, b, k=v, k2=v2)`; well-formed only with at least one keyword
+      (a call without keywords is `call`) -/
+  | callkw (f : Expr) (args : List Expr) (kws : List (String × Expr))
 deriving Repr
 
 def printInt (i : Int) : List Tok := if 0 ≤ i then [.num i.toNat] else [.op "-", .num (-i).toNat]
+
+/-- `repr(float)`: a negative float is the operator `-` followed by a NUMBER token -/
+def printFloat (neg : Bool) (t : String) : List Tok := if neg then [.op "-", .fnum t] else [.fnum t]
 
 def printKey : Key → List Tok
   | .str s => [.str s]
@@ -39,6 +54,8 @@ def print : Expr → List Tok
   | .bin op l r => [.lpar] ++ printLhs l ++ [.op op] ++ print r ++ [.rpar]
   | .un op a => [.lpar, .op op] ++ print a ++ [.rpar]
   | .call f args => print f ++ [.lpar] ++ printArgs args
+  | .flit neg t => printFloat neg t
+  | .callkw f args kws => print f ++ [.lpar] ++ printPos args ++ printKws kws
 /-- a negative literal on the left is parenthesised (repaired `BinOpExpr.__repr__`) -/
 def printLhs : Expr → List Tok
   | .lit i => if 0 ≤ i then printInt i else [.lpar] ++ printInt i ++ [.rpar]
@@ -48,28 +65,59 @@ def printLhs : Expr → List Tok
   | .bin op l r => print (.bin op l r)
   | .un op a => print (.un op a)
   | .call f args => print (.call f args)
+  | .flit neg t => if neg then [.lpar] ++ printFloat neg t ++ [.rpar] else printFloat neg t
+  | .callkw f args kws => print (.callkw f args kws)
 /-- arguments followed by the closing parenthesis -/
 def printArgs : List Expr → List Tok
   | [] => [.rpar]
   | [a] => print a ++ [.rpar]
   | a :: b :: rest => print a ++ [.comma] ++ printArgs (b :: rest)
+/-- positional arguments that are followed by keyword arguments: each one followed by a comma -/
+def printPos : List Expr → List Tok
+  | [] => []
+  | a :: rest => print a ++ [.comma] ++ printPos rest
+/-- keyword arguments `name = value` followed by the closing parenthesis -/
+def printKws : List (String × Expr) → List Tok
+  | [] => [.rpar]
+  | [(k, v)] => [.name k, .op "="] ++ print v ++ [.rpar]
+  | (k, v) :: b :: rest => [.name k, .op "="] ++ print v ++ [.comma] ++ printKws (b :: rest)
 end
 
 def unops : List String := ["-", "+", "~"]
+
+/-- Python identifiers (ASCII): a letter or `_`, then letters, digits or `_` -/
+def identStart (c : Char) : Bool := c.isAlpha || c == '_'
+def identCont (c : Char) : Bool := c.isAlphanum || c == '_'
+def isIdent (s : String) : Bool :=
+  match s.toList with
+  | [] => false
+  | c :: cs => identStart c && cs.all identCont
+
+def kwNames (kws : List (String × Expr)) : List String := kws.map Prod.fst
+
+/-- Python rejects a repeated keyword (`SyntaxError: keyword argument repeated`) -/
+def namesDistinct (kws : List (String × Expr)) : Bool := decide (kwNames kws).Nodup
+
+/-- the node built by a call: without keywords it is `call` -/
+def mkCall (f : Expr) (args : List Expr) (kws : List (String × Expr)) : Expr :=
+  if kws.isEmpty then .call f args else .callkw f args kws
 
 mutual
 /-- E: a negative literal or a postfix expression -/
 def parseExpr : Nat → List Tok → Option (Expr × List Tok)
   | 0, _ => none
   | n+1, .op "-" :: .num k :: rest => some (.lit (-(k : Int)), rest)
+  | _+1, .op "-" :: .fnum t :: rest => some (.flit true t, rest)
   | n+1, toks => match parsePrimary n toks with
     | some (p, rest) => parseTrailers n p rest
     | none => none
 def parsePrimary : Nat → List Tok → Option (Expr × List Tok)
   | 0, _ => none
   | _+1, .num k :: rest => some (.lit k, rest)
+  | _+1, .fnum t :: rest => some (.flit false t, rest)
   | _+1, .name l :: rest => some (.root l, rest)
   | _+1, .lpar :: .op "-" :: .num k :: .rpar :: rest => some (.lit (-(k : Int)), rest)
+  | _+1, .lpar :: .op "-" :: .fnum t :: .rpar :: rest => some (.flit true t, rest)
   | n+1, .lpar :: .op o :: rest =>
     if o ∈ unops then
       match parseExpr n rest with
@@ -92,20 +140,38 @@ def parseTrailers : Nat → Expr → List Tok → Option (Expr × List Tok)
   | n+1, acc, .dot :: .name a :: rest => parseTrailers n (.attr acc a) rest
   | n+1, acc, .lpar :: rest =>
     match parseArgs n rest with
-    | some (args, rest') => parseTrailers n (.call acc args) rest'
+    | some ((args, kws), rest') => parseTrailers n (mkCall acc args kws) rest'
     | none => none
   | _+1, acc, toks => some (acc, toks)
-def parseArgs : Nat → List Tok → Option (List Expr × List Tok)
+/-- positional arguments, then keyword arguments (one token of look-ahead: a name followed by the operator
+    `=` starts the keyword part; after it only keyword arguments are read), then the closing parenthesis -/
+def parseArgs : Nat → List Tok → Option ((List Expr × List (String × Expr)) × List Tok)
   | 0, _ => none
-  | _+1, .rpar :: rest => some ([], rest)
+  | _+1, .rpar :: rest => some (([], []), rest)
+  | n+1, .name k :: .op "=" :: rest =>
+    match parseKws n (.name k :: .op "=" :: rest) with
+    | some (kws, rest') => if namesDistinct kws then some (([], kws), rest') else none
+    | none => none
   | n+1, toks =>
     match parseExpr n toks with
     | some (a, .comma :: rest) =>
       (match parseArgs n rest with
-       | some (as, rest') => if as = [] then none else some (a :: as, rest')
+       | some ((as, kws), rest') => if as.isEmpty && kws.isEmpty then none else some ((a :: as, kws), rest')
        | none => none)
-    | some (a, .rpar :: rest) => some ([a], rest)
+    | some (a, .rpar :: rest) => some (([a], []), rest)
     | _ => none
+/-- one or more `name = value`, comma separated, up to the closing parenthesis -/
+def parseKws : Nat → List Tok → Option (List (String × Expr) × List Tok)
+  | 0, _ => none
+  | n+1, .name k :: .op "=" :: rest =>
+    match parseExpr n rest with
+    | some (v, .comma :: rest') =>
+      (match parseKws n rest' with
+       | some (kws, r) => some ((k, v) :: kws, r)
+       | none => none)
+    | some (v, .rpar :: rest') => some ([(k, v)], rest')
+    | _ => none
+  | _+1, _ => none
 end
 
 def ex1 : Expr := .bin "**" (.lit (-3)) (.item (.item (.root "d") (.str "a")) (.int (-1)))
@@ -113,6 +179,9 @@ def ex2 : Expr := .call (.attr (.root "f") "atan2") [.un "-" (.attr (.root "r") 
 #eval print ex1
 #eval (parseExpr 50 (print ex1)).map (fun p => (toString (repr p.1), p.2.length))
 #eval (parseExpr 50 (print ex2)).map (fun p => (toString (repr p.1), p.2.length))
+def ex3 : Expr := .callkw (.root "round") [.bin "**" (.flit true "1.5") (.root "x")] [("ndigits", .lit 2), ("k", .flit true "1e-07")]
+#eval print ex3
+#eval (parseExpr 50 (print ex3)).map (fun p => (toString (repr p.1), p.2.length))
 
 
 /-! ### round trip -/
@@ -151,20 +220,28 @@ def WFpost : Expr → Prop
   | .item o _ => WFpost o
   | .attr o _ => WFpost o
   | .lit _ => False
+  | .flit _ _ => False
   | .bin _ l r => WFarg l ∧ WFarg r
   | .un op a => op ∈ unops ∧ WFpost a
   | .call f args => WFpost f ∧ WFargs args
+  | .callkw f args kws => WFpost f ∧ WFargs args ∧ kws ≠ [] ∧ WFkws kws ∧ (kwNames kws).Nodup
 def WFarg : Expr → Prop
   | .lit _ => True
+  | .flit _ _ => True
   | .root _ => True
   | .item o _ => WFpost o
   | .attr o _ => WFpost o
   | .bin _ l r => WFarg l ∧ WFarg r
   | .un op a => op ∈ unops ∧ WFpost a
   | .call f args => WFpost f ∧ WFargs args
+  | .callkw f args kws => WFpost f ∧ WFargs args ∧ kws ≠ [] ∧ WFkws kws ∧ (kwNames kws).Nodup
 def WFargs : List Expr → Prop
   | [] => True
   | a :: r => WFarg a ∧ WFargs r
+/-- keyword arguments: every name a (non-empty) Python identifier, every value an argument expression -/
+def WFkws : List (String × Expr) → Prop
+  | [] => True
+  | (k, v) :: r => isIdent k = true ∧ WFarg v ∧ WFkws r
 end
 
 /-- first token classes -/
@@ -182,10 +259,47 @@ theorem head_post : ∀ e : Expr, WFpost e → ∀ rest, HeadAtom (print e ++ re
     have := head_post o (by simpa [WFpost] using h) ([.dot, .name a] ++ rest)
     simpa [print, List.append_assoc] using this
   | .lit _, h, _ => by simp [WFpost] at h
+  | .flit _ _, h, _ => by simp [WFpost] at h
   | .bin _ _ _, _, rest => by simp [print, HeadAtom]
   | .un _ _, _, rest => by simp [print, HeadAtom]
   | .call f args, h, rest => by
     have := head_post f (by simp [WFpost] at h; exact h.1) ([.lpar] ++ printArgs args ++ rest)
+    simpa [print, List.append_assoc] using this
+  | .callkw f args kws, h, rest => by
+    have := head_post f (by simp [WFpost] at h; exact h.1) ([.lpar] ++ printPos args ++ printKws kws ++ rest)
+    simpa [print, List.append_assoc] using this
+
+/-- the keyword look-ahead: a name followed by an operator token -/
+def NotKw : List Tok → Prop
+  | .name _ :: .op _ :: _ => False
+  | _ => True
+
+def NoOpHead : List Tok → Prop
+  | .op _ :: _ => False
+  | _ => True
+
+theorem notkw_name (l : String) (rest : List Tok) (h : NoOpHead rest) : NotKw (.name l :: rest) := by
+  cases rest with
+  | nil => simp [NotKw]
+  | cons x xs => cases x <;> simp_all [NotKw, NoOpHead]
+
+theorem notkw_post : ∀ e : Expr, WFpost e → ∀ rest, NoOpHead rest → NotKw (print e ++ rest)
+  | .root l, _, rest, hr => by simpa [print] using notkw_name l rest hr
+  | .item o k, h, rest, _ => by
+    have := notkw_post o (by simpa [WFpost] using h) ([.lbr] ++ printKey k ++ [.rbr] ++ rest) (by simp [NoOpHead])
+    simpa [print, List.append_assoc] using this
+  | .attr o a, h, rest, _ => by
+    have := notkw_post o (by simpa [WFpost] using h) ([.dot, .name a] ++ rest) (by simp [NoOpHead])
+    simpa [print, List.append_assoc] using this
+  | .lit _, h, _, _ => by simp [WFpost] at h
+  | .flit _ _, h, _, _ => by simp [WFpost] at h
+  | .bin _ _ _, _, rest, _ => by simp [print, NotKw]
+  | .un _ _, _, rest, _ => by simp [print, NotKw]
+  | .call f args, h, rest, _ => by
+    have := notkw_post f (by simp [WFpost] at h; exact h.1) ([.lpar] ++ printArgs args ++ rest) (by simp [NoOpHead])
+    simpa [print, List.append_assoc] using this
+  | .callkw f args kws, h, rest, _ => by
+    have := notkw_post f (by simp [WFpost] at h; exact h.1) ([.lpar] ++ printPos args ++ printKws kws ++ rest) (by simp [NoOpHead])
     simpa [print, List.append_assoc] using this
 
 theorem parseExpr_atom (n : Nat) (toks : List Tok) (h : HeadAtom toks) :
@@ -200,7 +314,8 @@ theorem parsePrimary_name (n : Nat) (l : String) (rest : List Tok) :
   unfold parsePrimary; rfl
 
 /-- opening parenthesis followed by an atom start: a binary node -/
-theorem parsePrimary_bin (n : Nat) (X : List Tok) (h : HeadAtom X ∨ ∃ k r, X = .num k :: r) :
+theorem parsePrimary_bin (n : Nat) (X : List Tok)
+    (h : HeadAtom X ∨ (∃ k r, X = .num k :: r) ∨ (∃ t r, X = .fnum t :: r)) :
     parsePrimary (n + 1) (.lpar :: X) =
       match parseExpr n X with
       | some (l, .op o :: r1) =>
@@ -209,8 +324,9 @@ theorem parsePrimary_bin (n : Nat) (X : List Tok) (h : HeadAtom X ∨ ∃ k r, X
          | _ => none)
       | _ => none := by
   unfold parsePrimary
-  rcases h with h | ⟨k, r, rfl⟩
+  rcases h with h | ⟨k, r, rfl⟩ | ⟨t, r, rfl⟩
   · split <;> simp_all [HeadAtom]
+  · split <;> simp_all
   · split <;> simp_all
 
 theorem parsePrimary_un (n : Nat) (o : String) (X : List Tok) (ho : o ∈ unops) (h : HeadAtom X) :
@@ -228,7 +344,7 @@ theorem parsePrimary_un (n : Nat) (o : String) (X : List Tok) (ho : o ∈ unops)
 theorem parseTrailers_call (n : Nat) (acc : Expr) (Y : List Tok) :
     parseTrailers (n + 1) acc (.lpar :: Y) =
       match parseArgs n Y with
-      | some (args, rest') => parseTrailers n (.call acc args) rest'
+      | some ((args, kws), rest') => parseTrailers n (mkCall acc args kws) rest'
       | none => none := by
   conv => lhs; unfold parseTrailers
 
@@ -275,17 +391,39 @@ def HeadArg : List Tok → Prop
   | .rpar :: _ => False
   | _ => True
 
-theorem parseArgs_arg (n : Nat) (toks : List Tok) (h : HeadArg toks) :
+/-- a positional argument: not the closing parenthesis and not the keyword look-ahead -/
+theorem parseArgs_arg (n : Nat) (toks : List Tok) (h : HeadArg toks) (hk : NotKw toks) :
     parseArgs (n + 1) toks =
       match parseExpr n toks with
       | some (a, .comma :: rest) =>
         (match parseArgs n rest with
-         | some (as, rest') => if as = [] then none else some (a :: as, rest')
+         | some ((as, kws), rest') => if as.isEmpty && kws.isEmpty then none else some ((a :: as, kws), rest')
          | none => none)
-      | some (a, .rpar :: rest) => some ([a], rest)
+      | some (a, .rpar :: rest) => some (([a], []), rest)
       | _ => none := by
   conv => lhs; unfold parseArgs
-  split <;> simp_all [HeadArg]
+  split <;> simp_all [HeadArg, NotKw]
+
+/-- the keyword look-ahead -/
+theorem parseArgs_kw (n : Nat) (k : String) (rest : List Tok) :
+    parseArgs (n + 1) (.name k :: .op "=" :: rest) =
+      match parseKws n (.name k :: .op "=" :: rest) with
+      | some (kws, rest') => if namesDistinct kws then some (([], kws), rest') else none
+      | none => none := by
+  conv => lhs; unfold parseArgs
+  simp
+
+theorem parseKws_kw (n : Nat) (k : String) (rest : List Tok) :
+    parseKws (n + 1) (.name k :: .op "=" :: rest) =
+      match parseExpr n rest with
+      | some (v, .comma :: rest') =>
+        (match parseKws n rest' with
+         | some (kws, r) => some ((k, v) :: kws, r)
+         | none => none)
+      | some (v, .rpar :: rest') => some ([(k, v)], rest')
+      | _ => none := by
+  conv => lhs; unfold parseKws
+  simp
 
 theorem parseExpr_lit (n : Nat) (i : Int) (rest : List Tok) (hnt : NoTrail rest) :
     parseExpr (n + 3) (printInt i ++ rest) = some (.lit i, rest) := by
@@ -301,6 +439,18 @@ theorem parseExpr_lit (n : Nat) (i : Int) (rest : List Tok) (hnt : NoTrail rest)
     unfold parseExpr
     simp only [h2]
 
+theorem parseExpr_flit (n : Nat) (neg : Bool) (t : String) (rest : List Tok) (hnt : NoTrail rest) :
+    parseExpr (n + 3) (printFloat neg t ++ rest) = some (.flit neg t, rest) := by
+  cases neg with
+  | false =>
+    simp only [printFloat, Bool.false_eq_true, if_false, List.singleton_append]
+    unfold parseExpr
+    simp only [parsePrimary, parseTrailers_stop _ _ _ hnt]
+  | true =>
+    simp only [printFloat, if_true, List.cons_append, List.nil_append]
+    unfold parseExpr
+    simp
+
 
 abbrev PostClaim (e : Expr) : Prop :=
   WFpost e → ∀ rest res, Ev (fun n => parseTrailers n e rest) res → Ev (fun n => parseExpr n (print e ++ rest)) res
@@ -311,22 +461,39 @@ theorem ev_lit (i : Int) (rest : List Tok) (hnt : NoTrail rest) :
     obtain ⟨m, rfl⟩ : ∃ m, n = m + 3 := ⟨n - 3, by omega⟩
     exact parseExpr_lit m i rest hnt⟩
 
+theorem ev_flit (neg : Bool) (t : String) (rest : List Tok) (hnt : NoTrail rest) :
+    Ev (fun n => parseExpr n (printFloat neg t ++ rest)) (.flit neg t, rest) :=
+  ⟨3, fun n hn => by
+    obtain ⟨m, rfl⟩ : ∃ m, n = m + 3 := ⟨n - 3, by omega⟩
+    exact parseExpr_flit m neg t rest hnt⟩
+
 /-- right operands and call arguments -/
 theorem arg_of_post (e : Expr) (hp : PostClaim e) (h : WFarg e) (rest : List Tok) (hnt : NoTrail rest) :
     Ev (fun n => parseExpr n (print e ++ rest)) (e, rest) := by
   cases e with
   | lit i => simpa [print] using ev_lit i rest hnt
+  | flit neg t => simpa [print] using ev_flit neg t rest hnt
   | root l => exact hp (by simp [WFpost]) rest _ (ev_trailers_stop _ rest hnt)
   | item o k => exact hp (by simpa [WFpost, WFarg] using h) rest _ (ev_trailers_stop _ rest hnt)
   | attr o a => exact hp (by simpa [WFpost, WFarg] using h) rest _ (ev_trailers_stop _ rest hnt)
   | bin op l r => exact hp (by simpa [WFpost, WFarg] using h) rest _ (ev_trailers_stop _ rest hnt)
   | un op a => exact hp (by simpa [WFpost, WFarg] using h) rest _ (ev_trailers_stop _ rest hnt)
   | call f args => exact hp (by simpa [WFpost, WFarg] using h) rest _ (ev_trailers_stop _ rest hnt)
+  | callkw f args kws => exact hp (by simpa [WFpost, WFarg] using h) rest _ (ev_trailers_stop _ rest hnt)
 
 theorem parseExpr_parenneg (n : Nat) (k : Nat) (rest : List Tok) (hnt : NoTrail rest) :
     parseExpr (n + 3) (.lpar :: .op "-" :: .num k :: .rpar :: rest) = some (.lit (-(k : Int)), rest) := by
   rw [parseExpr_atom _ _ (by simp [HeadAtom])]
   have : parsePrimary (n + 2) (.lpar :: .op "-" :: .num k :: .rpar :: rest) = some (.lit (-(k : Int)), rest) := by
+    conv => lhs; unfold parsePrimary
+    simp
+  rw [this]
+  exact parseTrailers_stop _ _ _ hnt
+
+theorem parseExpr_parennegf (n : Nat) (t : String) (rest : List Tok) (hnt : NoTrail rest) :
+    parseExpr (n + 3) (.lpar :: .op "-" :: .fnum t :: .rpar :: rest) = some (.flit true t, rest) := by
+  rw [parseExpr_atom _ _ (by simp [HeadAtom])]
+  have : parsePrimary (n + 2) (.lpar :: .op "-" :: .fnum t :: .rpar :: rest) = some (.flit true t, rest) := by
     conv => lhs; unfold parsePrimary
     simp
   rw [this]
@@ -347,52 +514,95 @@ theorem lhs_of_post (e : Expr) (hp : PostClaim e) (h : WFarg e) (rest : List Tok
       have := parseExpr_parenneg m (-i).toNat rest hnt
       rw [h2] at this
       simpa [printLhs, hi, printInt] using this
+  | flit neg t =>
+    cases neg with
+    | false => simpa [printLhs] using ev_flit false t rest hnt
+    | true =>
+      refine ⟨3, fun n hn => ?_⟩
+      obtain ⟨m, rfl⟩ : ∃ m, n = m + 3 := ⟨n - 3, by omega⟩
+      have := parseExpr_parennegf m t rest hnt
+      simpa [printLhs, printFloat] using this
   | root l => simpa [printLhs] using arg_of_post _ hp h rest hnt
   | item o k => simpa [printLhs] using arg_of_post _ hp h rest hnt
   | attr o a => simpa [printLhs] using arg_of_post _ hp h rest hnt
   | bin op l r => simpa [printLhs] using arg_of_post _ hp h rest hnt
   | un op a => simpa [printLhs] using arg_of_post _ hp h rest hnt
   | call f args => simpa [printLhs] using arg_of_post _ hp h rest hnt
+  | callkw f args kws => simpa [printLhs] using arg_of_post _ hp h rest hnt
 
 
 theorem head_lhs (e : Expr) (h : WFarg e) (rest : List Tok) :
-    HeadAtom (printLhs e ++ rest) ∨ ∃ k r, printLhs e ++ rest = .num k :: r := by
+    HeadAtom (printLhs e ++ rest) ∨ (∃ k r, printLhs e ++ rest = .num k :: r) ∨
+      (∃ t r, printLhs e ++ rest = .fnum t :: r) := by
   cases e with
   | lit i =>
     by_cases hi : 0 ≤ i
-    · right; exact ⟨i.toNat, rest, by simp [printLhs, hi, printInt]⟩
+    · right; left; exact ⟨i.toNat, rest, by simp [printLhs, hi, printInt]⟩
     · left; simp [printLhs, hi, HeadAtom]
+  | flit neg t =>
+    cases neg with
+    | false => right; right; exact ⟨t, rest, by simp [printLhs, printFloat]⟩
+    | true => left; simp [printLhs, HeadAtom]
   | root l => left; simpa [printLhs] using head_post (.root l) (by simp [WFpost]) rest
   | item o k => left; simpa [printLhs] using head_post (.item o k) (by simpa [WFpost, WFarg] using h) rest
   | attr o a => left; simpa [printLhs] using head_post (.attr o a) (by simpa [WFpost, WFarg] using h) rest
   | bin op l r => left; simp [printLhs, print, HeadAtom]
   | un op a => left; simp [printLhs, print, HeadAtom]
   | call f args => left; simpa [printLhs] using head_post (.call f args) (by simpa [WFpost, WFarg] using h) rest
+  | callkw f args kws =>
+    left; simpa [printLhs] using head_post (.callkw f args kws) (by simpa [WFpost, WFarg] using h) rest
+
+theorem headArg_of_atom (t : List Tok) (h : HeadAtom t) : HeadArg t := by
+  cases t with
+  | nil => simp [HeadAtom] at h
+  | cons x xs => cases x <;> simp_all [HeadAtom, HeadArg]
 
 theorem head_arg (e : Expr) (h : WFarg e) (rest : List Tok) : HeadArg (print e ++ rest) := by
   cases e with
   | lit i => by_cases hi : 0 ≤ i <;> simp [print, printInt, hi, HeadArg]
+  | flit neg t => cases neg <;> simp [print, printFloat, HeadArg]
   | root l => simp [print, HeadArg]
-  | item o k =>
-    have := head_post (.item o k) (by simpa [WFpost, WFarg] using h) rest
-    revert this; generalize print (.item o k) ++ rest = t; intro this
-    cases t with
-    | nil => simp [HeadAtom] at this
-    | cons x xs => cases x <;> simp_all [HeadAtom, HeadArg]
-  | attr o a =>
-    have := head_post (.attr o a) (by simpa [WFpost, WFarg] using h) rest
-    revert this; generalize print (.attr o a) ++ rest = t; intro this
-    cases t with
-    | nil => simp [HeadAtom] at this
-    | cons x xs => cases x <;> simp_all [HeadAtom, HeadArg]
+  | item o k => exact headArg_of_atom _ (head_post (.item o k) (by simpa [WFpost, WFarg] using h) rest)
+  | attr o a => exact headArg_of_atom _ (head_post (.attr o a) (by simpa [WFpost, WFarg] using h) rest)
   | bin op l r => simp [print, HeadArg]
   | un op a => simp [print, HeadArg]
-  | call f args =>
-    have := head_post (.call f args) (by simpa [WFpost, WFarg] using h) rest
-    revert this; generalize print (.call f args) ++ rest = t; intro this
-    cases t with
-    | nil => simp [HeadAtom] at this
-    | cons x xs => cases x <;> simp_all [HeadAtom, HeadArg]
+  | call f args => exact headArg_of_atom _ (head_post (.call f args) (by simpa [WFpost, WFarg] using h) rest)
+  | callkw f args kws =>
+    exact headArg_of_atom _ (head_post (.callkw f args kws) (by simpa [WFpost, WFarg] using h) rest)
+
+/-- a positional argument never looks like the start of a keyword argument -/
+theorem notkw_arg (e : Expr) (h : WFarg e) (rest : List Tok) (hr : NoOpHead rest) : NotKw (print e ++ rest) := by
+  cases e with
+  | lit i => by_cases hi : 0 ≤ i <;> simp [print, printInt, hi, NotKw]
+  | flit neg t => cases neg <;> simp [print, printFloat, NotKw]
+  | root l => exact notkw_post (.root l) (by simp [WFpost]) rest hr
+  | item o k => exact notkw_post (.item o k) (by simpa [WFpost, WFarg] using h) rest hr
+  | attr o a => exact notkw_post (.attr o a) (by simpa [WFpost, WFarg] using h) rest hr
+  | bin op l r => simp [print, NotKw]
+  | un op a => simp [print, NotKw]
+  | call f args => exact notkw_post (.call f args) (by simpa [WFpost, WFarg] using h) rest hr
+  | callkw f args kws => exact notkw_post (.callkw f args kws) (by simpa [WFpost, WFarg] using h) rest hr
+
+/-- the keyword part read by `parseArgs`, from the keyword part read by `parseKws` -/
+theorem ev_args_of_kws (kws : List (String × Expr)) (toks rest : List Tok)
+    (hh : ∃ k r, toks = .name k :: .op "=" :: r) (hd : (kwNames kws).Nodup)
+    (h : Ev (fun n => parseKws n toks) (kws, rest)) :
+    Ev (fun n => parseArgs n toks) (([], kws), rest) := by
+  obtain ⟨k, r, rfl⟩ := hh
+  obtain ⟨n0, h⟩ := h
+  refine ⟨n0 + 1, fun n hn => ?_⟩
+  obtain ⟨m, rfl⟩ : ∃ m, n = m + 1 := ⟨n - 1, by omega⟩
+  have q := h m (by omega)
+  dsimp only at q
+  show parseArgs (m + 1) _ = _
+  rw [parseArgs_kw, q]
+  simp [namesDistinct, hd]
+
+theorem printKws_head (kws : List (String × Expr)) (hne : kws ≠ []) (rest : List Tok) :
+    ∃ k r, printKws kws ++ rest = .name k :: .op "=" :: r := by
+  match kws, hne with
+  | [(k, v)], _ => exact ⟨k, print v ++ .rpar :: rest, by simp [printKws]⟩
+  | (k, v) :: b :: r, _ => exact ⟨k, print v ++ .comma :: (printKws (b :: r) ++ rest), by simp [printKws]⟩
 
 mutual
 theorem rt_post : ∀ e : Expr, PostClaim e
@@ -415,6 +625,7 @@ theorem rt_post : ∀ e : Expr, PostClaim e
       (Ev.shift hev (fun n => parseTrailers_attr n o a rest))
     simpa [print, List.append_assoc] using this
   | .lit i => by intro hw; simp [WFpost] at hw
+  | .flit _ _ => by intro hw; simp [WFpost] at hw
   | .bin op l r => by
     intro hw rest res ⟨n3, h3⟩
     have hl : WFarg l := by simp [WFpost] at hw; exact hw.1
@@ -464,10 +675,34 @@ theorem rt_post : ∀ e : Expr, PostClaim e
       exact h3 m (by omega)
     have := rt_post f hf (.lpar :: (printArgs args ++ rest)) res hev
     simpa [print, List.append_assoc] using this
-theorem rt_args : ∀ args : List Expr, WFargs args → ∀ rest, Ev (fun n => parseArgs n (printArgs args ++ rest)) (args, rest)
+  | .callkw f args kws => by
+    intro hw rest res ⟨n3, h3⟩
+    have hw' : WFpost f ∧ WFargs args ∧ kws ≠ [] ∧ WFkws kws ∧ (kwNames kws).Nodup := by
+      simpa [WFpost] using hw
+    obtain ⟨hf, hargs, hne, hkws, hd⟩ := hw'
+    have hk := ev_args_of_kws kws (printKws kws ++ rest) rest (printKws_head kws hne rest) hd
+      (rt_kws kws hne hkws rest)
+    obtain ⟨n1, h1⟩ := rt_pos args hargs (printKws kws ++ rest) kws rest hne hk
+    have hev : Ev (fun n => parseTrailers n f (.lpar :: (printPos args ++ (printKws kws ++ rest)))) res := by
+      refine ⟨n1 + n3 + 1, fun n hn => ?_⟩
+      obtain ⟨m, rfl⟩ : ∃ m, n = m + 1 := ⟨n - 1, by omega⟩
+      show parseTrailers (m + 1) f (.lpar :: (printPos args ++ (printKws kws ++ rest))) = some res
+      have q1 := h1 m (by omega)
+      dsimp only at q1
+      rw [parseTrailers_call, q1]
+      have : mkCall f args kws = .callkw f args kws := by
+        cases kws with
+        | nil => exact absurd rfl hne
+        | cons x xs => simp [mkCall]
+      simp only [this]
+      exact h3 m (by omega)
+    have := rt_post f hf (.lpar :: (printPos args ++ (printKws kws ++ rest))) res hev
+    simpa [print, List.append_assoc] using this
+theorem rt_args : ∀ args : List Expr, WFargs args → ∀ rest,
+    Ev (fun n => parseArgs n (printArgs args ++ rest)) ((args, []), rest)
   | [], _, rest => ⟨1, fun n hn => by
       obtain ⟨m, rfl⟩ : ∃ m, n = m + 1 := ⟨n - 1, by omega⟩
-      show parseArgs (m + 1) (printArgs [] ++ rest) = some ([], rest)
+      show parseArgs (m + 1) (printArgs [] ++ rest) = some (([], []), rest)
       simp only [printArgs, List.singleton_append]
       conv => lhs; unfold parseArgs⟩
   | [a], hw, rest => by
@@ -475,11 +710,11 @@ theorem rt_args : ∀ args : List Expr, WFargs args → ∀ rest, Ev (fun n => p
     obtain ⟨n1, h1⟩ := arg_of_post a (rt_post a) ha (.rpar :: rest) (by simp [NoTrail])
     refine ⟨n1 + 1, fun n hn => ?_⟩
     obtain ⟨m, rfl⟩ : ∃ m, n = m + 1 := ⟨n - 1, by omega⟩
-    show parseArgs (m + 1) (printArgs [a] ++ rest) = some ([a], rest)
+    show parseArgs (m + 1) (printArgs [a] ++ rest) = some (([a], []), rest)
     have e1 : printArgs [a] ++ rest = print a ++ .rpar :: rest := by simp [printArgs, List.append_assoc]
     have q1 := h1 m (by omega)
     dsimp only at q1
-    rw [e1, parseArgs_arg _ _ (head_arg a ha _), q1]
+    rw [e1, parseArgs_arg _ _ (head_arg a ha _) (notkw_arg a ha _ (by simp [NoOpHead])), q1]
   | a :: b :: r, hw, rest => by
     have ha : WFarg a := by simp [WFargs] at hw; exact hw.1
     have hbr : WFargs (b :: r) := by simp [WFargs] at hw ⊢; exact hw.2
@@ -487,16 +722,70 @@ theorem rt_args : ∀ args : List Expr, WFargs args → ∀ rest, Ev (fun n => p
     obtain ⟨n2, h2⟩ := rt_args (b :: r) hbr rest
     refine ⟨n1 + n2 + 1, fun n hn => ?_⟩
     obtain ⟨m, rfl⟩ : ∃ m, n = m + 1 := ⟨n - 1, by omega⟩
-    show parseArgs (m + 1) (printArgs (a :: b :: r) ++ rest) = some (a :: b :: r, rest)
+    show parseArgs (m + 1) (printArgs (a :: b :: r) ++ rest) = some ((a :: b :: r, []), rest)
     have e1 : printArgs (a :: b :: r) ++ rest = print a ++ .comma :: (printArgs (b :: r) ++ rest) := by
       simp [printArgs, List.append_assoc]
     have q1 := h1 m (by omega)
     have q2 := h2 m (by omega)
     dsimp only at q1 q2
-    rw [e1, parseArgs_arg _ _ (head_arg a ha _), q1]
+    rw [e1, parseArgs_arg _ _ (head_arg a ha _) (notkw_arg a ha _ (by simp [NoOpHead])), q1]
     simp only
     rw [q2]
     simp
+/-- positional arguments in front of a keyword part `toks` -/
+theorem rt_pos : ∀ args : List Expr, WFargs args → ∀ (toks : List Tok) (kws : List (String × Expr)) (rest : List Tok),
+    kws ≠ [] → Ev (fun n => parseArgs n toks) (([], kws), rest) →
+    Ev (fun n => parseArgs n (printPos args ++ toks)) ((args, kws), rest)
+  | [], _, toks, kws, rest, _, h => by simpa [printPos] using h
+  | a :: r, hw, toks, kws, rest, hne, h => by
+    have ha : WFarg a := by simp [WFargs] at hw; exact hw.1
+    have hr : WFargs r := by simp [WFargs] at hw; exact hw.2
+    obtain ⟨n1, h1⟩ := arg_of_post a (rt_post a) ha (.comma :: (printPos r ++ toks)) (by simp [NoTrail])
+    obtain ⟨n2, h2⟩ := rt_pos r hr toks kws rest hne h
+    refine ⟨n1 + n2 + 1, fun n hn => ?_⟩
+    obtain ⟨m, rfl⟩ : ∃ m, n = m + 1 := ⟨n - 1, by omega⟩
+    show parseArgs (m + 1) (printPos (a :: r) ++ toks) = some ((a :: r, kws), rest)
+    have e1 : printPos (a :: r) ++ toks = print a ++ .comma :: (printPos r ++ toks) := by
+      simp [printPos, List.append_assoc]
+    have q1 := h1 m (by omega)
+    have q2 := h2 m (by omega)
+    dsimp only at q1 q2
+    rw [e1, parseArgs_arg _ _ (head_arg a ha _) (notkw_arg a ha _ (by simp [NoOpHead])), q1]
+    simp only
+    rw [q2]
+    have : kws.isEmpty = false := by cases kws <;> simp_all
+    simp [this]
+theorem rt_kws : ∀ kws : List (String × Expr), kws ≠ [] → WFkws kws → ∀ rest,
+    Ev (fun n => parseKws n (printKws kws ++ rest)) (kws, rest)
+  | [], hne, _, _ => absurd rfl hne
+  | [(k, v)], _, hw, rest => by
+    have hv : WFarg v := by simp [WFkws] at hw; exact hw.2
+    obtain ⟨n1, h1⟩ := arg_of_post v (rt_post v) hv (.rpar :: rest) (by simp [NoTrail])
+    refine ⟨n1 + 1, fun n hn => ?_⟩
+    obtain ⟨m, rfl⟩ : ∃ m, n = m + 1 := ⟨n - 1, by omega⟩
+    show parseKws (m + 1) (printKws [(k, v)] ++ rest) = some ([(k, v)], rest)
+    have e1 : printKws [(k, v)] ++ rest = .name k :: .op "=" :: (print v ++ .rpar :: rest) := by
+      simp [printKws, List.append_assoc]
+    have q1 := h1 m (by omega)
+    dsimp only at q1
+    rw [e1, parseKws_kw, q1]
+  | (k, v) :: b :: r, _, hw, rest => by
+    have hv : WFarg v := by simp [WFkws] at hw; exact hw.2.1
+    have hbr : WFkws (b :: r) := by simp [WFkws] at hw; exact hw.2.2
+    obtain ⟨n1, h1⟩ := arg_of_post v (rt_post v) hv (.comma :: (printKws (b :: r) ++ rest)) (by simp [NoTrail])
+    obtain ⟨n2, h2⟩ := rt_kws (b :: r) (by simp) hbr rest
+    refine ⟨n1 + n2 + 1, fun n hn => ?_⟩
+    obtain ⟨m, rfl⟩ : ∃ m, n = m + 1 := ⟨n - 1, by omega⟩
+    show parseKws (m + 1) (printKws ((k, v) :: b :: r) ++ rest) = some ((k, v) :: b :: r, rest)
+    have e1 : printKws ((k, v) :: b :: r) ++ rest =
+        .name k :: .op "=" :: (print v ++ .comma :: (printKws (b :: r) ++ rest)) := by
+      simp [printKws, List.append_assoc]
+    have q1 := h1 m (by omega)
+    have q2 := h2 m (by omega)
+    dsimp only at q1 q2
+    rw [e1, parseKws_kw, q1]
+    simp only
+    rw [q2]
 end
 
 /-- C11 (token level): printing then parsing gives the expression back, for every well-formed expression. -/
